@@ -80,6 +80,11 @@ Theorem rt_edit : forall e rest, edit_ok e -> read_edit (enc_edit e ++ rest) = R
 Proof. exact ManifestCodecProofs.rt_edit. Qed.
 Print Assumptions rt_edit.
 
+(** ValueStruct.EncodedSize (the buffer size callers reserve) is exactly the encoded length *)
+Theorem C16_value_size : forall v, blen (v_value v) + 11 < two32 -> encoded_size v = blen (enc_value v).
+Proof. exact value_size_law. Qed.
+Print Assumptions C16_value_size.
+
 (** decoders never panic, for ALL byte strings (the models carry Go's index and
     slice-bounds checks as an explicit [DPanic] outcome) *)
 Theorem C16_total_lock : forall data, decode_lock data <> DPanic.
